@@ -514,6 +514,13 @@ class SimDevice(object):
         if mode == "max":
             self._remote_counter += 1
             return wire.M32 - (self._remote_counter - 1)
+        if mode == "reuse":
+            # the device gives a new stream the lowest id that no open stream of its own is using: the id of a stream that has ended comes back at once
+            live = set(s.remote for s in self.streams.values() if not s.dead and not (s.dev_closed and s.host_closed))
+            r = 7
+            while r in live:
+                r += 1
+            return r
         live = set(s.remote for s in self.streams.values())
         while True:
             r = self.rng.getrandbits(32)
